@@ -1,7 +1,7 @@
 (* C13 — AnnealResults keeps `best` equal to the minimum under every list
    operation. Statements only; proofs in Proofs/AnnealResultsProofs.v. *)
 From QV.Model Require Import Base AnnealResults.
-From QV.Proofs Require Import AnnealResultsProofs.
+From QV.Proofs Require Import AnnealResultsProofs AnnealResultsRefine.
 From Coq Require Import Permutation.
 Open Scope Q_scope.
 
@@ -35,10 +35,38 @@ Theorem C13_convert : forall r,
 Proof. intros r. split; [apply to_bool_to_spin|]. split; [apply to_spin_to_bool| apply to_spin_val]. Qed.
 Print Assumptions C13_convert.
 
+(* refinement to a plain list: forgetting `best`, every operation yields, in every register, the list
+   the Python list operation yields, and raises exactly the exception the list operation raises (none
+   when the list operation accepts its operands) *)
+Theorem C13_refines_list : forall s o, res_map labs (step s o) = lstep (labs s) o.
+Proof. exact step_refines. Qed.
+Print Assumptions C13_refines_list.
+
+Theorem C13_raises_iff : forall s o e, step s o = Err e <-> lstep (labs s) o = Err e.
+Proof. exact step_raises_iff. Qed.
+Print Assumptions C13_raises_iff.
+
+(* both halves together, for whole programs: in every register `best` is None exactly when the list
+   the plain-list program holds there is empty, and otherwise a member of it with the smallest value *)
+Theorem C13_best_of_list : forall ops r,
+  match best (rd (run ops) r) with
+  | None => lrd (lrun ops) r = []
+  | Some b => In b (lrd (lrun ops) r) /\ forall x, In x (lrd (lrun ops) r) -> rval b <= rval x
+  end.
+Proof. exact run_best_of_list. Qed.
+Print Assumptions C13_best_of_list.
+
 (* non-vacuity: the D3 / D4 histories *)
 Example C13_example :
   let r v := {| rval := v; rbits := [true]; rspin := true |} in
   map (fun c => option_map rval (best c))
       (run [Extend 0%nat 1%nat; Construct 1%nat [r 3; r 1]; Extend 0%nat 1%nat; SetItem 0%nat 1%Z (r 5); DelItem 1%nat 0%Z])
   = [Some 3; Some 1; None].
+Proof. vm_compute. reflexivity. Qed.
+
+(* the list program raises where a list would (pop from empty, remove of an absent element) and not elsewhere *)
+Example C13_example_raises :
+  let r v := {| rval := v; rbits := [true]; rspin := true |} in
+  (lstep [[]; []; []] (Pop 0%nat (-1)%Z), lstep [[]; []; []] (Remove 0%nat (r 1)), lstep [[r 1]; []; []] (Pop 0%nat (-1)%Z))
+  = (Err IndexError, Err ValueError, Ok [[]; []; []]).
 Proof. vm_compute. reflexivity. Qed.
